@@ -1,6 +1,9 @@
 package activitypub
 
-import "bytes"
+import (
+	"bytes"
+	"fmt"
+)
 
 // C12 — read-only operations never modify their arguments (hence are race-free).
 // vpFreeze() makes every object allocated so far, and the package's variables, read-only in the
@@ -109,6 +112,23 @@ var vpReadOps = []vpReadOp{
 				out = append(out, b...)
 				out = append(out, n.String()...)
 			}
+			return nil
+		})
+		return out
+	}},
+	{"formatting", func(x Item) []byte {
+		// the fmt verbs the text types implement, with widths and precisions (a formatter that cuts
+		// the text to the precision in place writes into the value it prints)
+		var out []byte
+		_ = OnObject(x, func(o *Object) error {
+			for _, n := range []NaturalLanguageValues{o.Name, o.Summary, o.Content} {
+				out = append(out, fmt.Sprintf("%s|%v|%q|%.2s|%.3v|%8.1s", n, n, n, n, n, n)...)
+				for _, e := range n {
+					out = append(out, fmt.Sprintf("%s|%v|%q|%.2s|%.1v|%-6.3q", e, e, e, e, e, e)...)
+					out = append(out, fmt.Sprintf("%s|%.2s|%.1v|%s", e.Value, e.Value, e.Value, e.Ref)...)
+				}
+			}
+			out = append(out, fmt.Sprintf("%.4s|%.5v|%.2s|%.3s", o.ID, o.ID, o.Type, o.MediaType)...)
 			return nil
 		})
 		return out
